@@ -4,7 +4,10 @@ Under contract in this build: the recursive depth-first search
 structure/bonds.pyx::_find_connected behind get_molecule_indices /
 find_connected -- memory safety, monotone visited mask, closure of the newly
 visited atoms under the neighbour table, and a *recursion-depth obligation*
-(the function is a C function that recurses once per newly visited atom)."""
+(the function is a C function that recurses once per newly visited atom); and
+structure/segments.py::get_segment_starts_for / get_segment_positions (behind
+get_residue_/get_chain_ starts_for and positions): for every index the result is
+the segment the atom lies in, ValueError exactly when some index names no atom."""
 import z3
 from pyvc.api import Case, sym_int, sym_c, implies, iff
 from pyvc.core import CV, zint, zbool, simp
@@ -22,7 +25,8 @@ ASSUMPTIONS = [
     "that nothing outside the component is visited needs graph reachability and is not claimed",
 ]
 UNVERIFIED = [
-    "get_residue_starts / get_chain_starts / segments.py (NumPy-vectorised; not under contract in this build)",
+    "get_residue_starts / get_chain_starts and the other functions of segments.py (get_segment_masks, apply_/spread_segment_wise, "
+    "segment_iter): NumPy-vectorised or 2-d slice assignment; not under contract in this build (bounded stand-in only)",
     "get_molecule_indices / get_molecule_masks / molecule_iter drivers, BondList.get_all_bonds",
 ]
 
@@ -115,7 +119,69 @@ CASES = [
          recursive=(BONDS + "::_find_connected",),
          ensures=[("dfs", ens_fc)], timeout=20),
 ]
-MIN_OBLIGATIONS = 8
+MIN_OBLIGATIONS = 40
+
+
+# ---- segments.py: the segment of a given atom (get_residue_/get_chain_ starts_for, positions) ----------------
+SEG = "structure/segments.py"
+ASSUMPTIONS.append(
+    "get_segment_starts_for / get_segment_positions: `starts` is what get_residue_starts / get_chain_starts(add_exclusive_stop=True) "
+    "hand over (int64, starts[0] == 0, strictly ascending, last entry = number of atoms; [0] for an array without atoms); `indices` is "
+    "a 1-d int64 array of any values; library contracts (not proved) for np.asarray, slicing, integer array comparison, "
+    "ndarray.any, np.where, np.min, np.searchsorted, integer array - 1 and a[integer index array]; a scalar `indices` (0-d) is outside the contract")
+
+
+def setup_seg(I):
+    ns = sym_int(I, "n_starts", 1, 2 ** 31 - 2)
+    m = sym_int(I, "n_indices", 0, 2 ** 31 - 2)
+    starts = SymArr("starts", "int64", [ns], readonly=True)
+    indices = SymArr("indices", "int64", [m], readonly=True)
+    k = z3.Int("k!r")
+    S, X = starts.arr, indices.arr
+    I.ctx.assume(z3.Select(S, 0) == 0)
+    # strictly ascending, stated pairwise (the solver does no induction from the adjacent form)
+    k2 = z3.Int("k2!r")
+    I.ctx.assume(z3.ForAll([k, k2], z3.Implies(z3.And(k >= 0, k < k2, k2 < ns), z3.Select(S, k) < z3.Select(S, k2))))
+    I.ctx.assume(z3.Select(S, ns - 1) <= 2 ** 31 - 2)
+    I.ctx.assume(z3.ForAll([k], z3.Implies(z3.And(k >= 0, k < m), z3.And(z3.Select(X, k) >= -2 ** 63, z3.Select(X, k) <= 2 ** 63 - 1))))
+    length = z3.Select(S, ns - 1)
+    g = {"ns": ns, "m": m, "S": S, "X": X, "length": length,
+         # some index names no atom of the array
+         "no_such_atom": z3.Exists([k], z3.And(k >= 0, k < m, z3.Or(z3.Select(X, k) < 0, z3.Select(X, k) >= length)))}
+    I.ghost["seg"] = g
+    return {"args": [starts, indices], "ghost": g}
+
+
+def ens_positions(I, env):
+    g = I.ghost["seg"]
+    res = env.vars["result"]
+    k = I.ctx.fresh_int("k")
+    p = z3.Select(res.arr, k)
+    x = z3.Select(g["X"], k)
+    return [("one_position_per_index", natives.eq(I, res.shape[0], g["m"])),
+            ("position_names_a_segment", implies(z3.And(k >= 0, k < g["m"]), z3.And(p >= 0, p < g["ns"] - 1))),
+            ("atom_lies_in_that_segment", implies(z3.And(k >= 0, k < g["m"]),
+                                                  z3.And(z3.Select(g["S"], p) <= x, x < z3.Select(g["S"], p + 1))))]
+
+
+def ens_starts_for(I, env):
+    g = I.ghost["seg"]
+    res = env.vars["result"]
+    k = I.ctx.fresh_int("k")
+    p, j = z3.Int("p!e"), I.ctx.fresh_int("j")
+    r = z3.Select(res.arr, k)
+    x = z3.Select(g["X"], k)
+    inside = z3.And(k >= 0, k < g["m"])
+    return [("one_start_per_index", natives.eq(I, res.shape[0], g["m"])),
+            ("is_a_segment_start", implies(inside, z3.Exists([p], z3.And(p >= 0, p < g["ns"] - 1, z3.Select(g["S"], p) == r)))),
+            ("start_not_after_the_atom", implies(inside, r <= x)),
+            ("no_later_start_before_the_atom", implies(z3.And(inside, j >= 0, j < g["ns"] - 1, z3.Select(g["S"], j) <= x), z3.Select(g["S"], j) <= r))]
+
+
+CASES.append(Case(SEG + "::get_segment_positions", setup=setup_seg, overflow=False, ensures=[("positions", ens_positions)],
+                  raises={"ValueError": lambda I, env: I.ghost["seg"]["no_such_atom"]}, timeout=20))
+CASES.append(Case(SEG + "::get_segment_starts_for", setup=setup_seg, overflow=False, ensures=[("starts_for", ens_starts_for)],
+                  raises={"ValueError": lambda I, env: I.ghost["seg"]["no_such_atom"]}, timeout=20))
 
 
 from pyvc.api import bounded_via_script
